@@ -199,9 +199,8 @@ class SyncedDict(SyncedCollection, MutableMapping):
         """
         if _mapping_resolver.get_type(data) == "MAPPING":
             if self._root is None:
-                with self._thread_lock:
+                with self._lock_and_save:
                     self._update(data)
-                    self._save()
             else:
                 with self._load_and_save:
                     self._update(data)
@@ -242,9 +241,8 @@ class SyncedDict(SyncedCollection, MutableMapping):
         if self._root is None:
             # The root does not load first: clearing is also the way to recover
             # from an unreadable resource. The change is made under the lock.
-            with self._thread_lock:
+            with self._lock_and_save:
                 self._data.clear()
-                self._save()
         else:
             with self._load_and_save:
                 self._data.clear()
